@@ -143,3 +143,77 @@ def perm_of_classical(cols, n, M):
                 v |= 1 << q
         img[r] = v
     return img
+
+
+# ------------------------------------------------------------------------------------------------
+# Sparse exact simulation (dict basis index -> amplitude): classical gates only permute keys, so the
+# number of non-zero amplitudes of an algorithm circuit (Hadamards on a small register around a
+# compiled classical oracle) stays tiny whatever the number of scratch qubits.
+def sparse_run(gates, n, init=0, eps=1e-13):
+    st = {init: 1.0 + 0j}
+    for g, w, p in gates:
+        kind, nc, base = describe(g)
+        if kind == "nop":
+            continue
+        w = list(w)
+        if any((not isinstance(q, (int, np.integer))) or q < 0 or q >= n for q in w) or len(set(w)) != len(w):
+            raise Unsupported("bad qubits %r" % (w,))
+        if kind == "swap":
+            a, b = w
+            new = {}
+            for k, v in st.items():
+                ba, bb = (k >> a) & 1, (k >> b) & 1
+                if ba != bb:
+                    k ^= (1 << a) | (1 << b)
+                new[k] = new.get(k, 0) + v
+            st = new
+            continue
+        if kind == "ctrl":
+            ctr, t = w[:nc], w[nc]
+        else:
+            ctr, t = [], w[0]
+        m = base_matrix(base, p)
+        cm = 0
+        for c in ctr:
+            cm |= 1 << c
+        tb = 1 << t
+        if m[0, 1] == 0 and m[1, 0] == 0:  # diagonal
+            for k in list(st):
+                if (k & cm) == cm:
+                    st[k] *= m[1, 1] if k & tb else m[0, 0]
+        elif m[0, 0] == 0 and m[1, 1] == 0:  # anti-diagonal (X, Y): permutation with phases
+            new = {}
+            for k, v in st.items():
+                if (k & cm) == cm:
+                    if k & tb:
+                        new[k ^ tb] = new.get(k ^ tb, 0) + m[0, 1] * v
+                    else:
+                        new[k ^ tb] = new.get(k ^ tb, 0) + m[1, 0] * v
+                else:
+                    new[k] = new.get(k, 0) + v
+            st = new
+        else:
+            new = {}
+            for k, v in st.items():
+                if (k & cm) == cm:
+                    k0, k1 = k & ~tb, k | tb
+                    if k & tb:
+                        new[k0] = new.get(k0, 0) + m[0, 1] * v
+                        new[k1] = new.get(k1, 0) + m[1, 1] * v
+                    else:
+                        new[k0] = new.get(k0, 0) + m[0, 0] * v
+                        new[k1] = new.get(k1, 0) + m[1, 0] * v
+                else:
+                    new[k] = new.get(k, 0) + v
+            st = {k: v for k, v in new.items() if abs(v) > eps}
+    return st
+
+
+def sparse_marginal(st, qubits):
+    out = [0.0] * (1 << len(qubits))
+    for k, v in st.items():
+        idx = 0
+        for j, q in enumerate(qubits):
+            idx |= ((k >> q) & 1) << j
+        out[idx] += abs(v) ** 2
+    return out
